@@ -1,6 +1,8 @@
 import CantoVerif.Driver.Coinswap
+import CantoVerif.Driver.Erc20
 /-! Line-protocol driver: `lake env lean --run Main.lean <suite> < trace` -/
 def main (args : List String) : IO UInt32 := do
   match args with
   | ["coinswap"] => CV.Drv.Coinswap.main; return 0
+  | ["erc20"] => CV.Drv.Erc20.main; return 0
   | _ => IO.eprintln "usage: Main <suite>"; return 2
